@@ -34,7 +34,46 @@ def run(ctx):
     CE = ConstEval(P, f.mod)
     IMAX = 2**31 - 1
     probes = [i for i in f.insts() if i.op == 'call' and i.res and 'get_by_desc' in i.callee]
-    if not probes:
+    # a concrete registry for the value-function checks: three live instances with descriptors 5, 11, 7 (head to tail)
+    I_DESC, I_LINK = P.field_index('ec_backend', 'idesc'), P.field_index('ec_backend', 'link')
+    REG = [5, 11, 7]
+    def registry(descs):
+        objs = {}
+        for n_, d_ in enumerate(descs):
+            objs[f'inst{n_}'] = {(I_DESC,): d_, (I_LINK, 0): (('obj', f'inst{n_ + 1}', ()) if n_ + 1 < len(descs) else ('null',))}
+        head = ('obj', 'inst0', ()) if descs else ('null',)
+        return objs, {('@active_instances', (0,)): head}
+    def walks_registry(fn_):
+        return any(i.op == 'load' and '@active_instances' in i.ops[0] for i in fn_.insts())
+    if not probes and walks_registry(f):
+        # the search is written out in the allocator itself: decide the same value function against concrete registries
+        bad = None
+        try:
+            for c in (-7, -2, -1, 0, 1, 5, 41, IMAX - 1, IMAX):
+                objs, gm = registry([])
+                res = CE.run(f, [], gmem=dict(gm, **{'@next_backend_desc': c}), objs=objs, call_hook=lambda ins, args: 0)
+                nxt = c + 1 if c < IMAX else -2**31
+                want = nxt if nxt > 0 else 1
+                if res['ret'] != want or res['gmem'].get('@next_backend_desc') != want:
+                    bad = f'counter {c}, empty registry: returns {res["ret"]} (counter left at {res["gmem"].get("@next_backend_desc")}), expected {want}'
+                    break
+            for c, want in ((10, 12), (6, 8), (4, 6), (20, 21)) if bad is None else ():
+                objs, gm = registry(REG)
+                res = CE.run(f, [], gmem=dict(gm, **{'@next_backend_desc': c}), objs=objs, call_hook=lambda ins, args: 0)
+                if res['ret'] != want:
+                    bad = f'counter {c} with descriptors {REG} live: returns {res["ret"]}, expected {want}'
+                    break
+        except Undecidable as e:
+            bad = None
+            r.undecided('allocator value function', loc=f.mod.src, msg=str(e))
+        else:
+            if bad is None:
+                r.ok('free registry: returns ++counter, 1 when that is <= 0 (incl. INT_MAX wrap)', func=f.name, loc=f.mod.src)
+                r.ok('a descriptor held by a live instance (head, middle or tail of the registry) is skipped', func=f.name, loc=f.mod.src)
+                r.ok('probe present (search written out in the allocator)', func=f.name, loc=f.mod.src, trivial=True)
+            else:
+                r.fail('allocator value function', func=f.name, sig='allocator: ' + bad[:70], loc=f.mod.src, msg='the descriptor allocator does not return a fresh positive descriptor: ' + bad)
+    elif not probes:
         r.fail('registry probe', func=f.name, sig='no look-up of the candidate', loc=f.mod.src, msg='the candidate descriptor is not checked against live instances')
     else:
         # (1) with a free registry: counter c -> returns c+1, or 1 when c+1 <= 0 (also at the INT_MAX wrap); the probe sees that value
@@ -243,10 +282,42 @@ def run(ctx):
     r = ctx.rule('R14i', 'registry search: NULL only after the whole list was walked, an entry only when its descriptor equals the argument',
                  'a search that stops early (e.g. assuming an ordering) reports live instances as unknown and lets the allocator reissue their descriptors')
     from ..paths import enumerate_paths
-    lf = P.fn('backend_instance_get_by_desc_locked')
-    Cl = Canon(P, lf)
+    # the public look-up as a value function: against the registry 5 -> 11 -> 7 it returns exactly the entry whose descriptor is asked for
+    pubf = P.fn('liberasurecode_backend_instance_get_by_desc')
+    CEp = ConstEval(P, pubf.mod)
+    def public_lookup(d_):
+        # the search may live in a file-local helper (followed by name) or be written out in the function itself
+        objs, gm = registry(REG)
+        def hook(ins, args):
+            g_ = P.fns.get(ins.callee)
+            if g_ is not None and g_.order and g_.linkage == 'internal' and walks_registry(g_):
+                return CEp.run(g_, args, gmem=dict(gm), objs=objs, call_hook=lambda i2, a2: 0)['ret']
+            return 0
+        return CEp.run(pubf, [d_], gmem=dict(gm), objs=objs, call_hook=hook)['ret']
+    try:
+        wrong = []
+        for d_, want in ((5, ('obj', 'inst0', ())), (11, ('obj', 'inst1', ())), (7, ('obj', 'inst2', ())), (6, ('null',)), (12, ('null',)), (0, ('null',)), (-1, ('null',))):
+            got = public_lookup(d_)
+            if got != want:
+                wrong.append(f'descriptor {d_}: {"NULL" if got == ("null",) else got} instead of {"NULL" if want == ("null",) else "the instance holding it"}')
+        if wrong:
+            r.fail('look-up value function', func=pubf.name, sig='look-up: ' + wrong[0][:70], loc=pubf.mod.src,
+                   msg=f'with descriptors {REG} live (head to tail) the look-up answers: ' + '; '.join(wrong))
+        else:
+            r.ok(f'look-up against the registry {REG}: each live descriptor yields its instance, anything else NULL', func=pubf.name, loc=pubf.mod.src)
+    except Undecidable as e:
+        r.undecided('look-up value function', loc=pubf.mod.src, msg=str(e))
+    lf = P.fns.get('@backend_instance_get_by_desc_locked')
+    if lf is None:
+        # the search is written out in its callers: the value functions above (look-up) and under R14a (allocator) decide it
+        class _NoPaths:
+            name = pubf.name
+        paths_of = []
+    else:
+        paths_of = enumerate_paths(P, lf)
+    Cl = Canon(P, lf) if lf is not None else None
     np_ = 0
-    for n, p in enumerate(enumerate_paths(P, lf)):
+    for n, p in enumerate(paths_of):
         T = [(pr, a, b) for pr, a, b, w, i in p.truths()]
         isnull = p.ret == 'null' or ('eq', p.ret, 'null') in T
         np_ += 1
@@ -265,7 +336,7 @@ def run(ctx):
             else:
                 r.fail(f'path #{n}: entry result', func=lf.name, sig='entry returned without idesc == desc', loc=lf.mod.src,
                        msg=f'the search returns {p.ret} on a path without the test idesc == desc (conditions: {T[-3:]})')
-    r.require_min(3)
+    r.require_min(3 if lf is not None else 1)
 
     # ---------------- R14k no success without looking the descriptor up
     r = ctx.rule('R14k', 'every entry point that takes a descriptor looks it up on every path that returns a non-negative value',
